@@ -27,8 +27,13 @@ import (
 )
 
 type state struct {
-	Messages                 []*schema.Message
-	ReturnDirectlyToolCallID string
+	Messages []*schema.Message
+	// ReturnDirectly reports whether the assistant message being handled by the tools node calls a
+	// return-directly tool; ReturnDirectlyToolCallIndex is then the position of the first such call
+	// among the message's tool calls. The tools node answers position by position, so the position
+	// identifies the tool message even when the model gives its tool calls no id, or one id twice.
+	ReturnDirectly              bool
+	ReturnDirectlyToolCallIndex int
 }
 
 const (
@@ -209,7 +214,7 @@ func NewAgent(ctx context.Context, config *AgentConfig) (_ *Agent, err error) {
 
 	toolsNodePreHandle := func(ctx context.Context, input *schema.Message, state *state) (*schema.Message, error) {
 		state.Messages = append(state.Messages, input)
-		state.ReturnDirectlyToolCallID = getReturnDirectlyToolCallID(input, config.ToolReturnDirectly)
+		state.ReturnDirectlyToolCallIndex, state.ReturnDirectly = getReturnDirectlyToolCallIndex(input, config.ToolReturnDirectly)
 		return input, nil
 	}
 	if err = graph.AddToolsNode(nodeKeyTools, toolsNode, compose.WithStatePreHandler(toolsNodePreHandle), compose.WithNodeName(ToolsNodeName)); err != nil {
@@ -255,11 +260,8 @@ func buildReturnDirectly(graph *compose.Graph[[]*schema.Message, *schema.Message
 		return schema.StreamReaderWithConvert(msgs, func(msgs []*schema.Message) (*schema.Message, error) {
 			var msg *schema.Message
 			err := compose.ProcessState[*state](ctx, func(_ context.Context, state *state) error {
-				for i := range msgs {
-					if msgs[i] != nil && msgs[i].ToolCallID == state.ReturnDirectlyToolCallID {
-						msg = msgs[i]
-						return nil
-					}
+				if i := state.ReturnDirectlyToolCallIndex; state.ReturnDirectly && i < len(msgs) {
+					msg = msgs[i]
 				}
 				return nil
 			})
@@ -283,7 +285,7 @@ func buildReturnDirectly(graph *compose.Graph[[]*schema.Message, *schema.Message
 		msgsStream.Close()
 
 		err = compose.ProcessState[*state](ctx, func(_ context.Context, state *state) error {
-			if len(state.ReturnDirectlyToolCallID) > 0 {
+			if state.ReturnDirectly {
 				endNode = nodeKeyDirectReturn
 			} else {
 				endNode = nodeKeyModel
@@ -316,18 +318,18 @@ func genToolInfos(ctx context.Context, config compose.ToolsNodeConfig) ([]*schem
 	return toolInfos, nil
 }
 
-func getReturnDirectlyToolCallID(input *schema.Message, toolReturnDirectly map[string]struct{}) string {
+func getReturnDirectlyToolCallIndex(input *schema.Message, toolReturnDirectly map[string]struct{}) (int, bool) {
 	if len(toolReturnDirectly) == 0 {
-		return ""
+		return 0, false
 	}
 
-	for _, toolCall := range input.ToolCalls {
+	for i, toolCall := range input.ToolCalls {
 		if _, ok := toolReturnDirectly[toolCall.Function.Name]; ok {
-			return toolCall.ID
+			return i, true
 		}
 	}
 
-	return ""
+	return 0, false
 }
 
 // Generate generates a response from the agent.
